@@ -228,9 +228,9 @@ Proof.
       intros [Hsp [pk' [vk' Hp]]]. rewrite EP in Hp. discriminate.
 Qed.
 
-Lemma tracked_step names st o st' ob : m_step names st o = Some (st', ob) -> tracked_inv st -> tracked_inv st'.
+Lemma tracked_step_base names st o st' ob : m_step_base names st o = Some (st', ob) -> tracked_inv st -> tracked_inv st'.
 Proof.
-  intros H Hinv. destruct o; cbn [m_step] in H.
+  intros H Hinv. destruct o; cbn [m_step_base m_step_gen] in H; [| | | | | | | |discriminate].
   - destruct (m_setattr st name v) as [s1|k|] eqn:E; inversion H; subst; [|assumption].
     eapply tracked_setattr; eassumption.
   - destruct (m_listop st name o) as [[s1 ex]|k|] eqn:E; [|discriminate|discriminate].
@@ -254,6 +254,27 @@ Proof.
     destruct (tracked_getattr _ _ _ _ _ Hinv EG) as [Hsg _].
     match type of H with match ?r with _ => _ end = _ => destruct r as [s2|k|] eqn:E end; inversion H; subst; [|assumption].
     eapply tracked_setattr; eassumption.
+Qed.
+
+Lemma tracked_send st st' c : m_send st = Some (st', c) -> tracked_inv st -> tracked_inv st'.
+Proof.
+  intros H Hinv. unfold m_send in H. destruct (m_unsaved st) as [|it items] eqn:EU; [inversion H; subst; exact Hinv|].
+  rewrite <- EU in H. destruct (save_loop st (m_unsaved st) []) as [[sl args]|k|] eqn:EL; try discriminate.
+  destruct (tracked_save_loop _ _ _ _ _ Hinv (proj2 (proj2 Hinv)) EL) as [Hsl _].
+  destruct (existsb (fun kv : bytes * bytes => key_refused (fst kv)) args); [discriminate|]. inversion H. subst. exact Hsl.
+Qed.
+
+Lemma tracked_step names st o st' ob : m_step names st o = Some (st', ob) -> tracked_inv st -> tracked_inv st'.
+Proof.
+  intros H Hinv. destruct o as [? ?|? ?|?|?| |?| |? ?|rj dz];
+    try (match type of H with m_step _ _ ?o = _ => exact (tracked_step_base names st o st' ob H Hinv) end).
+  cbn [m_step m_step_gen] in H.
+  refine (m_flight_inv tracked_inv names _ _ _ _ st rj dz st' ob H Hinv).
+  - intros s o s' ob'. apply tracked_step_base.
+  - intros s s' c. apply tracked_send.
+  - intros s f [HP [HC HU]]. split; [exact HP|]. split; [exact HC|]. cbn [with_unsaved m_unsaved].
+    intros k w l Hin. apply (HU k w l). now apply filter_In in Hin as [Hin _].
+  - intros s s' rs Hs Hi. eapply tracked_snapshot; eassumption.
 Qed.
 
 Lemma reaches_tracked names st ops st' : reaches names st ops st' -> tracked_inv st -> tracked_inv st'.
